@@ -25,7 +25,7 @@ def nabs(x):
 
 MANIFEST = dict(
     technique='explicit-state enumeration of the CTC matrix input tree x beam width x selector; real decoder vs brute-force CTC sum and a reference prefix beam search that explores every tie resolution',
-    text='Bounded exhaustive: every matrix with T <= 4 (quick) / 5 (thorough) rows over a 13-row alphabet (C=3; ties, zeros, one-hot rows, entries straddling the pre-selection threshold, all-pruned rows) and T <= 3/4 over 7 rows (C=4), for k in {1,2,3,4,100} and both selectors. Distinctness, the no-over-count bound and exactness are checked against the full alignment sum; the pruned result against a textbook prefix beam search with all boundary-tie resolutions; un-normalised variants must be rejected. Added sub-sweeps: float32 input, one decoder object re-used across lines (and still rejecting un-normalised input), a non-pruning selector returning unsorted indices, lines of 260-520 frames against the forward recursion (validated against enumeration in setup), and the three-symbol matrices embedded in a 33 000-symbol output layer. A third class count (C=5, T<=3/4): frames with more relevant symbols than the beam is wide next to blank-only frames. Wave 10: one un-normalised frame anywhere in lines of 260-1100 frames (block borders, last frames) must be rejected; every single failing array allocation of the decoder on all matrices of up to two rows (the decoder may report the failure, hypotheses it returns must still be distinct and never over-counted).',
+    text='Bounded exhaustive: every matrix with T <= 4 (quick) / 5 (thorough) rows over a 13-row alphabet (C=3; ties, zeros, one-hot rows, entries straddling the pre-selection threshold, all-pruned rows) and T <= 3/4 over 7 rows (C=4), for k in {1,2,3,4,100} and both selectors. Distinctness, the no-over-count bound and exactness are checked against the full alignment sum; the pruned result against a textbook prefix beam search with all boundary-tie resolutions; un-normalised variants must be rejected. Added sub-sweeps: float32 input, one decoder object re-used across lines (and still rejecting un-normalised input), a non-pruning selector returning unsorted indices, lines of 260-520 frames against the forward recursion (validated against enumeration in setup), and the three-symbol matrices embedded in a 33 000-symbol output layer. A third class count (C=5, T<=3/4): frames with more relevant symbols than the beam is wide next to blank-only frames. Wave 10: one un-normalised frame anywhere in lines of 260-1100 frames (block borders, last frames) must be rejected; every single failing array allocation of the decoder on all matrices of up to two rows (the decoder may report the failure, hypotheses it returns must still be distinct and never over-counted). Wave 11 (ownership / lifetime): histories of two lines written into ONE caller-owned array (every pair of one-frame lines; every two-frame line followed by every in-place overwrite of one of its frames; thorough: every pair of two-frame lines), decoded each time by two long-lived decoders (default and non-pruning selector) taking turns - each result must be that of the content at the time of the call (a fresh decoder on a copy, or another boundary-tie resolution of the reference beam search), and a result the caller kept must read the same after the later calls.',
     note='Real-valued matrices outside the alphabet, T > 5 and C > 5 are not explored; scores compared within 1e-9.',
     ref='3/C02')
 TH = math.exp(-10)   # 4.54e-5: the default pre-selection keeps logits > -10
@@ -54,7 +54,9 @@ ROWS5 = [
 LETTERS = {3: ['a', 'b', '<BLANK>'], 4: ['a', 'b', 'c', '<BLANK>'], 5: ['a', 'b', 'c', 'd', '<BLANK>']}
 KS = [1, 2, 3, 4, 100]
 SELS = ['default', 'all', 'all_desc']          # 'all_desc': a non-pruning selector that lists the symbols by decreasing score (unsorted indices)
-BOUNDS = {'quick': dict(T3=4, T4=3, T5=3, Tunnorm=2), 'thorough': dict(T3=5, T4=4, T5=4, Tunnorm=2)}
+# Tbuf: lines of up to Tbuf frames written into ONE pre-allocated array; Tbuf_full: up to this length EVERY second line follows every first line,
+# above it the second line is the first with one frame overwritten in place (every frame x every other row of the alphabet)
+BOUNDS = {'quick': dict(T3=4, T4=3, T5=3, Tunnorm=2, Tbuf=2, Tbuf_full=1), 'thorough': dict(T3=5, T4=4, T5=4, Tunnorm=2, Tbuf=2, Tbuf_full=2)}
 BOUNDS['replay'] = BOUNDS['quick']
 EPS = 1e-9
 
@@ -117,6 +119,12 @@ def shards(tier):
         out.append({'long_unnorm': T})
     for t in (1, 2):
         out.append({'faults': t})
+    for t in range(1, b['Tbuf'] + 1):
+        if t == 1:
+            out.append({'buffer': 1, 'first': None})
+        else:
+            for first in range(len(ROWS3)):
+                out.append({'buffer': t, 'first': first})
     return out
 
 
@@ -155,6 +163,20 @@ def run_shard(shard, ctx, tier):
         for rows in itertools.product(range(R), repeat=shard['faults']):
             for k in (2, 100):
                 guarded_check(mod, {'faults': list(rows), 'k': k}, ctx)
+        return
+    if 'buffer' in shard:
+        R = len(rows_for(3))
+        t = shard['buffer']
+        firsts = [[shard['first']]] if shard['first'] is not None else [[]]
+        for head in firsts:
+            for rest in itertools.product(range(R), repeat=t - len(head)):
+                m1 = head + list(rest)
+                if t <= BOUNDS[tier]['Tbuf_full']:
+                    seconds = [list(m2) for m2 in itertools.product(range(R), repeat=t)]
+                else:
+                    seconds = [m1[:pos] + [r] + m1[pos + 1:] for pos in range(t) for r in range(R) if r != m1[pos]]
+                for m2 in seconds:
+                    guarded_check(mod, {'buffer': [m1, m2]}, ctx)
         return
     if 'long' in shard:
         guarded_check(mod, {'long': shard['long'], 'kind': shard['kind']}, ctx)
@@ -382,7 +404,88 @@ def check_faults(case, ctx):
             return
 
 
+def read_hyps(boh):
+    return [(h.transcript, float(h.vis_sc)) for h in boh]
+
+
+def same_number(a, b, tol=0.0):
+    return a == b or (a != a and b != b) or nabs(a - b) <= tol
+
+
+def matches_reference_beam(C, lp, k, sel, hyps):
+    """True / False: `hyps` is (is not) the result of frame-synchronous prefix beam search under some resolution of the boundary ties; None: too many tie branches"""
+    selfn = (lambda r: [i for i, x in enumerate(r) if x > -10]) if sel == 'default' else (lambda r: list(range(len(r))))
+    beams, st = ref_prefix_beam([list(map(float, r)) for r in lp], k, selfn)
+    if st['truncated']:
+        return None
+    ts = [t for t, _ in hyps]
+    if len(set(ts)) != len(ts):
+        return False
+    for b in beams:
+        ref = {''.join(LETTERS[C][i] for i in l): lse(pb, pnb) for l, (pb, pnb) in b.items()}
+        if set(ref) == set(ts) and all(same_number(ref[t], s, EPS) for t, s in hyps):
+            return True
+    return False
+
+
+def check_buffer(case, ctx):
+    """a short history on live objects: the caller owns ONE pre-allocated array, writes line after line into it (or overwrites single frames of it) and decodes
+    it each time, with two long-lived decoder objects (default / non-pruning selector) taking turns on the same array.  Every result must be that of the
+    array's content at the time of the call (= what a fresh decoder returns for a copy of it, or another resolution of boundary ties), and a result the caller
+    kept must still read the same after later calls."""
+    from pero_ocr.decoding.decoders import CTCPrefixLogRawNumpyDecoder
+    C = 3
+    RA = rows_for(C)
+    lines = [list(l) for l in case['buffer']]
+    T = len(lines[0])
+    key = tuple(tuple(l) for l in lines)
+    ctx.state(('buffer', key))
+    passes = [[tuple(x > TH for x in RA[i][:-1]) for i in l] for l in lines]
+    changes_selection = any(a != b for a, b in zip(passes, passes[1:]))
+    for k in (2, 100):
+        buf = np.zeros((T, C))
+        decs = [(sel, CTCPrefixLogRawNumpyDecoder(LETTERS[C], k, **selector_kw(sel))) for sel in ('default', 'all')]
+        kept = []
+        for n, rows in enumerate(lines):
+            M = [RA[i] for i in rows]
+            lp = to_log(M)
+            buf[...] = lp                                     # the same array object, new content
+            for sel, dec in decs:
+                boh = dec(buf)
+                got = read_hyps(boh)
+                fresh = decode(C, lp, k, sel)
+                ctx.executed(2)
+                ctx.outcome(('buffer', tuple(sorted(t for t, _ in got))))
+                g, f = dict(got), dict(fresh)
+                if len(g) != len(got) or set(g) != set(f) or not all(same_number(g[t], f[t], EPS) for t in f):
+                    verdict = matches_reference_beam(C, lp, k, sel, got)
+                    if verdict is None:
+                        ctx.tag('skipped-too-many-tie-branches')
+                    elif not verdict:
+                        which = 'first-line' if n == 0 else 'line-written-over-the-previous-one'
+                        ctx.violation('equals-frame-synchronous-beam-search', f'{ID}/C{C}/{sel}/one-array-refilled-in-place/{which}-differs-from-decoding-a-copy',
+                                      f'k={k}, selector {sel}: one array holds line after line {[[RA[i] for i in l] for l in lines[:n + 1]]}; decoding it when it holds line #{n} '
+                                      f'gives {sorted((t, round(s, 6)) for t, s in got)}, a fresh decoder on a copy of the same content gives '
+                                      f'{sorted((t, round(s, 6)) for t, s in fresh)}')
+                        return
+                for boh0, was, n0, sel0 in kept:
+                    now = read_hyps(boh0)
+                    if len(now) != len(was) or any(t0 != t1 or not same_number(s0, s1) for (t0, s0), (t1, s1) in zip(was, now)):
+                        ctx.violation('equals-frame-synchronous-beam-search', f'{ID}/C{C}/{sel0}/result-kept-by-the-caller-changed-by-a-later-call',
+                                      f'k={k}: the hypotheses returned for line #{n0} (selector {sel0}) read {was} when returned and {now} after the call for line #{n} '
+                                      f'(selector {sel}); lines {[[RA[i] for i in l] for l in lines]}')
+                        return
+                    ctx.tag('kept-result-read-again-after-a-later-call')
+                kept.append((boh, got, n, sel))
+    if changes_selection:
+        ctx.nontrivial(('buffer', key), 'array-refilled-in-place-with-another-pre-selection')
+    else:
+        ctx.tag('array-refilled-in-place-same-pre-selection')
+
+
 def check_case(case, ctx):
+    if 'buffer' in case:
+        return check_buffer(case, ctx)
     if 'long_unnorm' in case:
         return check_long_unnorm(case, ctx)
     if 'faults' in case:
@@ -504,7 +607,10 @@ def describe(tier):
         'rule': 'every matrix with T<=T3 rows over the 13-row alphabet (C=3) and T<=T4 rows over the 7-row alphabet (C=4) and T<=T5 rows over the 6-row alphabet (C=5: more relevant symbols per frame than the beam is wide) '
                 'x k in {1,2,3,4,100} x {default, non-pruning} selector; plus 3 un-normalised variants of every row of every '
                 'matrix with T<=2. state = distinct matrix. Non-trivial: (matrix,k,selector) where the reference beam '
-                'actually dropped a finite candidate; counters report joins, all-pruned frames, selector pruning, boundary ties.',
+                'actually dropped a finite candidate; counters report joins, all-pruned frames, selector pruning, boundary ties. '
+                'Histories on one caller-owned array (C=3): every pair of lines of <=Tbuf_full frames, and every line of <=Tbuf frames followed by every '
+                'overwrite of one of its frames, x k in {2,100} x two long-lived decoders (default / non-pruning selector) taking turns; non-trivial there: '
+                'the two contents differ in which symbols pass the pre-selection threshold in some frame.',
         'bounds': dict(b, ks=KS, selectors=SELS, eps=EPS),
         'alphabets': {'rows_C3': ROWS3, 'rows_C4': ROWS4},
         'assumptions': ['ties at the beam boundary (within 1e-9) may be resolved either way',
@@ -512,5 +618,6 @@ def describe(tier):
         'min_nontrivial': 100,
         'required_tags': ['beam-pruned', 'prefix-joining', 'all-pruned-shortcut', 'selector-pruned', 'unpruned-nodes',
                           'unnormalised-variants', 'tie-at-beam-boundary', 'float32-and-reused-decoder', 'more-than-255-frames', 'output-layer-beyond-int16', 'combining-mark-letter-table',
-                          'unnormalised-frame-in-a-long-line', 'fault-points', 'failure-reported'],
+                          'unnormalised-frame-in-a-long-line', 'fault-points', 'failure-reported',
+                          'array-refilled-in-place-with-another-pre-selection', 'kept-result-read-again-after-a-later-call'],
     }
